@@ -8,7 +8,8 @@ import dyn
 import x64sweep as xs
 
 DYN_FAMILY = {("legacy", 1): "Rb", ("legacy", 2): "Rw", ("legacy", 4): "Rd", ("legacy", 8): "Rq", ("xmm", 16): "Rx", ("xmm", 32): "Ry",
-              ("mmx", 8): "Rm", ("fp", 10): "Rf", ("segment", 2): "Rs", ("bound", 16): "RB"}
+              ("mmx", 8): "Rm", ("fp", 10): "Rf", ("segment", 2): "Rs", ("bound", 16): "RB",
+              ("control", 8): "RC", ("control", 4): "RC", ("debug", 8): "RD", ("debug", 4): "RD"}
 
 
 def plan(all_entries=False):
